@@ -24,6 +24,14 @@ CHECKS = {
         "trusts stdlib datetime arithmetic and the harness's integer date arithmetic; sampled over instants",
         "property-based testing: Hypothesis generation + exhaustive offset table against an independent reference implementation; round-trip oracle for writing",
     ),
+    "C10": (
+        "exploration",
+        "Hypothesis-generated (type parameterisation, required, list-wrapped, obligation) cases: value round trip through the wire "
+        "escaping, text -> canonical fixed point with independently computed values, None passthrough, must-reject texts and values; "
+        "plus an enumerated boundary table for every length 1..40, digits 1..12, scale 0..8.",
+        "trusts reftypes' decimal/entity rules; lenient literals outside the documented lexical space are not asserted either way",
+        "property-based testing: Hypothesis generation + enumerated boundary table; round-trip / fixed-point / reference-value oracles",
+    ),
 }
 
 PENDING_REASON = "check not built yet in this round (planned in DESIGN.md §3); not claimed until its machinery exists and is quiet on the unchanged tree"
